@@ -167,7 +167,7 @@ fn dispatch_shapes(ctx: &Ctx, rep: &mut Report) {
         "", "0", "1", "7", "65535", ";", "5;", ";5", "3;4", "1;2;3", "4", "20", "4;20", "6", "25", "47", "1047", "1048", "1049",
         "1;6;7;25", "2", "3", "5", "8;2;3", "8;;", "38;5;1", "38;2;1;2;3", "38:5:1", "38:2:1:2:3", "38:2::1:2:3", "48;5;255", "1;38;5;9;4",
         "0;1;2;3;4;5;7;9", "21;22;23;24;25;27;29", "30;37;39;40;47;49;90;97;100;107", "6;8;10;26;50;98;108;1000", "1:2", "4:3", "38:5", "38;5",
-        "65536", "99999",
+        "65536", "99999", "38;4", "7;38;4;9", "48;1", "38", "1;38", "38;48:5:1;4", "0;1;3;4;5;7;9;38;2;10;20;30;48;2;40;50;60",
     ]
     .iter()
     .map(|s| s.to_string())
